@@ -403,6 +403,30 @@ def run(ctx: Ctx, tier: str) -> Result:
         res.ok("C19.ROOT", {"APP_ROOT": norm(stores[0].value)[:100]})
     else:
         res.fail(Finding("C19.ROOT", st.qname, stores[0] if stores else "<config['APP_ROOT'] = ...>", st.loc(), "APP_ROOT is not derived only when absent from the code config with the environment value first"))
+    # a value given in code is the caller's for that call: a mutable default of an entry point is one object for every call
+    # made without the argument, and what one start writes into it (the resolved APP_ROOT) counts as `given in code` in the next
+    from .common import param_mutations
+    entry_ = [f_ for f_ in p.functions.values() if f_.module.name in ("deep", "deep.api.deep", "deep.config.config_service", "deep.api")]
+    nmd = 0
+    for f_ in entry_:
+        a_ = f_.node.args
+        pos_ = a_.posonlyargs + a_.args
+        pairs_ = list(zip(pos_[len(pos_) - len(a_.defaults):], a_.defaults)) + [(k_, d_) for k_, d_ in zip(a_.kwonlyargs, a_.kw_defaults) if d_ is not None]
+        for prm_, d_ in pairs_:
+            mutable = isinstance(d_, (ast.Dict, ast.List, ast.Set)) or (isinstance(d_, ast.Call) and norm(d_.func) in ("dict", "list", "set", "OrderedDict", "collections.OrderedDict"))
+            if not mutable:
+                continue
+            nmd += 1
+            muts_ = param_mutations(ctx, f_, prm_.arg, depth=3)
+            kept_ = [c_ for c_ in t.calls_in(f_) if any(isinstance(x_, ast.Name) and x_.id == prm_.arg for x_ in list(c_.args) + [k_.value for k_ in c_.keywords])
+                     and (t.resolve_call(c_, f_).ctor or t.resolve_call(c_, f_).repo)]
+            if muts_ or kept_:
+                n_ = muts_[0][1] if muts_ else kept_[0]
+                res.fail(Finding("C19.CHAIN", f_.qname, n_, (muts_[0][0] if muts_ else f_).loc(n_), "`%s` has the mutable default `%s` and the function writes into it / hands it on (`%s`): every call "
+                                 "without the argument shares one object, so values resolved by an earlier start are taken as given in code by the next" % (
+                                     prm_.arg, norm(d_), norm(n_)[:50])))
+    if not nmd:
+        res.ok("C19.CHAIN", {"no entry point has a mutable default for its configuration argument": len(entry_)})
     return res
 
 
